@@ -245,3 +245,213 @@ reg.add(Proc(
     requires=lambda c: [('marker-is-private', no_marker_values(c))],
     raises={'KeyError': (lambda c: first_tag(c, c.a.self, c.a.tag, MARKER) == MARKER, lambda c: [])},
     ensures=lambda c: [('nearest-interface-in-iro-wins', c.res == first_tag(c, c.a.self, c.a.tag, MARKER))]))
+
+
+# ------------------------------------------------------------------ invariants: every invariant of every interface of __iro__, in order
+reg.fields['$calls'] = SeqO
+INVS = z3.Function('direct_invariants', Obj, SeqO)              # iface.queryDirectTaggedValue('invariants', ())
+FAILS = z3.Function('invariant_raises_Invalid', Obj, Obj, z3.BoolSort())
+ERR = z3.Function('invariant_error', Obj, Obj, Obj)
+inv_ev = z3.Function('invariant_call', Obj, Obj, Obj)
+reg.assumptions.append('invariants are external calls that either return or raise Invalid (oracle per (invariant, object)); they do not '
+                       'change __iro__ or the tagged values')
+# all_calls(iro, obj, k): the calls of every invariant of iro[:k], in order;  calls_of(s, obj, k): of the first k invariants of one list
+calls_of = z3.Function('calls_of_first_invariants', SeqO, Obj, Int, SeqO)
+all_calls = z3.Function('calls_of_invariants_of_first_interfaces', SeqO, Obj, Int, SeqO)
+errs_of = z3.Function('errors_of_first_invariants', SeqO, Obj, Int, SeqO)
+all_errs = z3.Function('errors_of_invariants_of_first_interfaces', SeqO, Obj, Int, SeqO)
+_vs, _vo = z3.Const('vi_s', SeqO), z3.Const('vi_o', Obj)
+_vk = z3.Int('vi_k')
+reg.axiom('calls_of-0', z3.ForAll([_vs, _vo], calls_of(_vs, _vo, 0) == Empty(SeqO), patterns=[calls_of(_vs, _vo, 0)]))
+reg.axiom('calls_of-step', z3.ForAll([_vs, _vo, _vk], z3.Implies(z3.And(0 <= _vk, _vk < L(_vs)), calls_of(_vs, _vo, _vk + 1) == Concat(
+    calls_of(_vs, _vo, _vk), Unit(inv_ev(_vs[_vk], _vo)))), patterns=[calls_of(_vs, _vo, _vk + 1)]))
+reg.axiom('errs_of-0', z3.ForAll([_vs, _vo], errs_of(_vs, _vo, 0) == Empty(SeqO), patterns=[errs_of(_vs, _vo, 0)]))
+reg.axiom('errs_of-step', z3.ForAll([_vs, _vo, _vk], z3.Implies(z3.And(0 <= _vk, _vk < L(_vs)), errs_of(_vs, _vo, _vk + 1) == z3.If(
+    FAILS(_vs[_vk], _vo), Concat(errs_of(_vs, _vo, _vk), Unit(ERR(_vs[_vk], _vo))), errs_of(_vs, _vo, _vk))), patterns=[errs_of(_vs, _vo, _vk + 1)]))
+reg.axiom('all_calls-0', z3.ForAll([_vs, _vo], all_calls(_vs, _vo, 0) == Empty(SeqO), patterns=[all_calls(_vs, _vo, 0)]))
+reg.axiom('all_calls-step', z3.ForAll([_vs, _vo, _vk], z3.Implies(z3.And(0 <= _vk, _vk < L(_vs)), all_calls(_vs, _vo, _vk + 1) == Concat(
+    all_calls(_vs, _vo, _vk), calls_of(INVS(_vs[_vk]), _vo, L(INVS(_vs[_vk]))))), patterns=[all_calls(_vs, _vo, _vk + 1)]))
+reg.axiom('all_errs-0', z3.ForAll([_vs, _vo], all_errs(_vs, _vo, 0) == Empty(SeqO), patterns=[all_errs(_vs, _vo, 0)]))
+reg.axiom('all_errs-step', z3.ForAll([_vs, _vo, _vk], z3.Implies(z3.And(0 <= _vk, _vk < L(_vs)), all_errs(_vs, _vo, _vk + 1) == Concat(
+    all_errs(_vs, _vo, _vk), errs_of(INVS(_vs[_vk]), _vo, L(INVS(_vs[_vk]))))), patterns=[all_errs(_vs, _vo, _vk + 1)]))
+
+
+_vi = z3.Int('vi_i')
+reg.induct('a-failing-invariant-shows-in-the-errors-of-its-interface', [_vs, _vo], _vk,
+           lambda k: z3.Implies(k <= L(_vs), z3.ForAll([_vi], z3.Implies(z3.And(0 <= _vi, _vi < k, FAILS(_vs[_vi], _vo)),
+                                                                       L(errs_of(_vs, _vo, k)) > 0))),
+           patterns=[errs_of(_vs, _vo, _vk)])
+reg.induct('errors-of-an-interface-show-in-the-errors-of-the-order', [_vs, _vo], _vk,
+           lambda k: z3.Implies(k <= L(_vs), z3.ForAll([_vi], z3.Implies(
+               z3.And(0 <= _vi, _vi < k, L(errs_of(INVS(_vs[_vi]), _vo, L(INVS(_vs[_vi])))) > 0), L(all_errs(_vs, _vo, k)) > 0))),
+           patterns=[all_errs(_vs, _vo, _vk)])
+
+
+def _direct_invs(ex, node, st, vals):
+    return [(st, V(SEQO, INVS(vals[0].t)))]
+
+
+def _call_invariant(ex, node, st, vals):
+    f, o = vals[0].t, box(vals[1])
+    st.heap.set('$calls', Concat(st.heap.get('$calls'), Unit(inv_ev(f, o))))
+    bad = st.clone()
+    bad.assume(FAILS(f, o))
+    ex.raise_(bad, 'Invalid', vobj(ERR(f, o)))
+    st.assume(z3.Not(FAILS(f, o)))
+    return [(st, VNONE)]
+
+
+def _new_invalid(ex, node, st, vals):
+    return [(st, vobj(z3.Function('Invalid_of', Obj, Obj)(box(vals[0]))))]
+
+
+def _vi_outer(c):
+    iro = c.h('__iro__')[c.a.self]
+    out = [('index-in-range', c.i <= L(iro)),
+           ('every-invariant-of-the-interfaces-visited-was-called-in-order', SeqEq(c.h('$calls'), Concat(c.h0('$calls'), all_calls(iro, c.a.obj, c.i))))]
+    return out + _vi_errs(c, all_errs(iro, c.a.obj, c.i))
+
+
+def _vi_errs(c, sofar):
+    return [('failures-collected-so-far', z3.Implies(c.a.errors != NONE, SeqEq(c.h('$list')[c.a.errors], Concat(c.h0('$list')[c.a.errors], sofar)))),
+            ('without-a-list-nothing-failed-so-far', z3.Implies(c.a.errors == NONE, L(sofar) == 0)),
+            ('other-lists-untouched', ForAllP([z3.Const('ve_o', Obj)], z3.Implies(z3.Const('ve_o', Obj) != c.a.errors,
+                                      c.h('$list')[z3.Const('ve_o', Obj)] == c.h0('$list')[z3.Const('ve_o', Obj)]), []))]
+
+
+def _vi_inner(c):
+    iro = c.h('__iro__')[c.a.self]
+    k = c.l['$i_L0']
+    invs = INVS(iro[k])
+    return [('index-in-range', z3.And(c.i <= L(invs), k < L(iro), 0 <= k)),
+            ('calls-so-far', SeqEq(c.h('$calls'), Concat(c.h0('$calls'), all_calls(iro, c.a.obj, k), calls_of(invs, c.a.obj, c.i))))] + \
+        _vi_errs(c, Concat(all_errs(iro, c.a.obj, k), errs_of(invs, c.a.obj, c.i)))
+
+
+def _vi_post(c):
+    iro = c.h0('__iro__')[c.a.self]
+    return [('every-invariant-of-every-interface-in-__iro__-ran-in-order', SeqEq(c.h('$calls'), Concat(c.h0('$calls'), all_calls(iro, c.a.obj, L(iro))))),
+            ('nothing-failed', z3.And(L(all_errs(iro, c.a.obj, L(iro))) == 0,
+                                      z3.Implies(c.a.errors != NONE, L(c.h0('$list')[c.a.errors]) == 0)))]
+
+
+def _vi_raises(c):
+    iro = c.h0('__iro__')[c.a.self]
+    return z3.Or(L(all_errs(iro, c.a.obj, L(iro))) > 0, z3.And(c.a.errors != NONE, L(c.h0('$list')[c.a.errors]) > 0))
+
+
+def _vi_rpost(c):
+    iro = c.h0('__iro__')[c.a.self]
+    return [('given-a-list-every-invariant-still-ran-and-all-failures-were-collected', z3.Implies(c.a.errors != NONE, z3.And(
+        SeqEq(c.h('$calls'), Concat(c.h0('$calls'), all_calls(iro, c.a.obj, L(iro)))),
+        SeqEq(c.h('$list')[c.a.errors], Concat(c.h0('$list')[c.a.errors], all_errs(iro, c.a.obj, L(iro)))))))]
+
+
+reg.add(Proc(I + 'InterfaceClass.validateInvariants', [('self', OBJ), ('obj', OBJ), ('errors', LISTO)],
+             source='interface.py:InterfaceClass.validateInvariants', defaults={'errors': VNONE},
+             opaque_calls={'.queryDirectTaggedValue': lambda ex, node, st, vals: _direct_invs(ex, node, st, vals), 'invariant': _call_invariant,
+                           'Invalid': _new_invalid},
+             locals={'$nomerge': True}, modifies=['$calls', '$list'],
+             raises={'Invalid': (_vi_raises, _vi_rpost)}, ensures=_vi_post,
+             loops={'L0': Loop(_vi_outer), 'L0.0': Loop(_vi_inner)}))
+
+
+# ------------------------------------------------------------------ getTaggedValueTags: the union of the direct tags along __iro__
+def has_direct_tag(c, J, t, now=True):
+    h = c.h if now else c.h0
+    tv = h('_Element__tagged_values')[J]
+    return z3.And(tv != NONE, h('$dict')[tv][t] != ABSENT)
+
+
+def _direct_tags(ex, node, st, vals):
+    """base.getDirectTaggedValueTags(): the keys of the element's own tagged values (Element.getTaggedValueTags), as a set view"""
+    J = vals[0].t
+    tv = ex.read_field(st, J, '_Element__tagged_values').t
+    m = fresh('direct_tags', ObjMap)
+    k = z3.Const('dt_k', Obj)
+    st.assume(z3.ForAll([k], (z3.Select(m, k) != ABSENT) == z3.And(tv != NONE, z3.Select(z3.Select(st.heap.get('$dict'), tv), k) != ABSENT),
+                        patterns=[z3.Select(m, k)]))
+    return [(st, V(Ty('items'), m))]
+
+
+def _tags_inv(c):
+    iro = c.h('__iro__')[c.a.self]
+    t = z3.Const('ti_t', Obj)
+    j = z3.Int('ti_j')
+    keys = c.h('$dict')[c.l['keys']]
+    return [('tags-of-the-interfaces-visited', ForAllP([t], (keys[t] != ABSENT) == z3.Exists([j], z3.And(0 <= j, j < c.i, has_direct_tag(c, iro[j], t))), [])),
+            ('nothing-else-changes', ForAllP([z3.Const('ti_o', Obj)], z3.Implies(c.h0('$alloc')[z3.Const('ti_o', Obj)],
+                                     c.h('$dict')[z3.Const('ti_o', Obj)] == c.h0('$dict')[z3.Const('ti_o', Obj)]), [])),
+            ('keys-is-new', z3.Not(c.h0('$alloc')[c.l['keys']]))]
+
+
+reg.add(Proc(I + 'InterfaceClass.getTaggedValueTags', [('self', OBJ)], source='interface.py:InterfaceClass.getTaggedValueTags',
+             result=DICT, opaque_calls={'.getDirectTaggedValueTags': _direct_tags}, locals={'keys': DICT},
+             modifies=['$dict', '$alloc'],
+             requires=lambda c: [('tagged-value-tables-are-allocated', ForAllP([z3.Const('tt_o', Obj)], z3.Implies(
+                 c.h('_Element__tagged_values')[z3.Const('tt_o', Obj)] != NONE, c.h('$alloc')[c.h('_Element__tagged_values')[z3.Const('tt_o', Obj)]]), []))],
+             ensures=lambda c: [('exactly-the-tags-some-interface-of-__iro__-carries-directly', ForAllP([z3.Const('tp_t', Obj)], (
+                 c.h('$dict')[c.res][z3.Const('tp_t', Obj)] != ABSENT) == z3.Exists([z3.Int('tp_j')], z3.And(
+                     0 <= z3.Int('tp_j'), z3.Int('tp_j') < L(c.h('__iro__')[c.a.self]),
+                     has_direct_tag(c, c.h('__iro__')[c.a.self][z3.Int('tp_j')], z3.Const('tp_t', Obj), False))), []))],
+             loops={'L0': Loop(_tags_inv)}))
+
+
+# ------------------------------------------------------------------ names(all=True) / iter: own names plus the names of every base (recursion by contract)
+NA = z3.Function('names_all', Obj, ObjMap)             # names(all=True) of a base, as a set (the recursive call, by its own contract)
+reg.fields['_bases'] = SEQO
+
+
+def _base_names(ex, node, st, vals):
+    """base.names(all): by this very contract, the set NA(base) when all is true"""
+    return [(st, V(Ty('items'), NA(vals[0].t)))]
+
+
+def _fromkeys(ex, node, st):
+    out = []
+    for s, vs in ex.ev_list(node.args, st):
+        r = ex.fresh_ref(s, 'dict')
+        src = vs[0].t
+        m = fresh('fromkeys', ObjMap)
+        k = z3.Const('fk_k', Obj)
+        s.assume(z3.ForAll([k], (z3.Select(m, k) != ABSENT) == (z3.Select(src, k) != ABSENT), patterns=[z3.Select(m, k)]))
+        ex.set_dictval(s, r, m)
+        out.append((s, V(DICT, r)))
+    return out
+
+
+def own_names(c, now=True):
+    h = c.h if now else c.h0
+    return h('$dict')[h('_InterfaceClass__attrs')[c.a.self]]
+
+
+def _names_inv(c):
+    n = z3.Const('ni_n', Obj)
+    j = z3.Int('ni_j')
+    bases = c.h('_bases')[c.a.self]
+    r = c.h('$dict')[c.l['r']]
+    return [('own-names-and-those-of-the-bases-visited', ForAllP([n], (r[n] != ABSENT) == z3.Or(
+        own_names(c, False)[n] != ABSENT, z3.Exists([j], z3.And(0 <= j, j < c.i, NA(bases[j])[n] != ABSENT))), [])),
+        ('nothing-else-changes', ForAllP([z3.Const('ni_o', Obj)], z3.Implies(c.h0('$alloc')[z3.Const('ni_o', Obj)],
+                                 c.h('$dict')[z3.Const('ni_o', Obj)] == c.h0('$dict')[z3.Const('ni_o', Obj)]), [])),
+        ('r-is-new', z3.And(z3.Not(c.h0('$alloc')[c.l['r']]), c.h('$alloc')[c.l['r']])),
+        ('allocation-only-grows', ForAllP([z3.Const('ni_o', Obj)], z3.Implies(c.h0('$alloc')[z3.Const('ni_o', Obj)], c.h('$alloc')[z3.Const('ni_o', Obj)]), []))]
+
+
+def _names_post(c):
+    n = z3.Const('np_n', Obj)
+    j = z3.Int('np_j')
+    bases = c.h('_bases')[c.a.self]
+    return [('own-names-only-unless-all', z3.Implies(z3.Not(c.a.all), ForAllP([n], Contains(c.res, n) == (own_names(c, False)[n] != ABSENT), []))),
+            ('with-all-the-own-names-and-the-names-of-every-base', z3.Implies(c.a.all, ForAllP([n], Contains(c.res, n) == z3.Or(
+                own_names(c, False)[n] != ABSENT, z3.Exists([j], z3.And(0 <= j, j < L(bases), NA(bases[j])[n] != ABSENT))), []))),
+            ('the-attribute-table-is-untouched', own_names(c) == own_names(c, False))]
+
+
+reg.add(Proc(I + 'InterfaceClass.names', [('self', OBJ), ('all', BOOL)], source='interface.py:InterfaceClass.names', result=SEQO,
+             classname='InterfaceClass', attr_alias={'__bases__': '_bases'},
+             calls={'dict.fromkeys': _fromkeys}, opaque_calls={'.names': _base_names}, locals={'r': DICT},
+             modifies=['$dict', '$alloc'],
+             requires=lambda c: [('the-attribute-table-exists', z3.And(c.h('_InterfaceClass__attrs')[c.a.self] != NONE,
+                                                                       c.h('$alloc')[c.h('_InterfaceClass__attrs')[c.a.self]]))],
+             ensures=_names_post, loops={'L0': Loop(_names_inv)}))
